@@ -1,5 +1,6 @@
 import Anysystem.Proofs.TimerContract
 import Anysystem.Proofs.TimerWitness
+import Anysystem.Proofs.SimStepThms
 /-!
 # C07 — The timer API contract holds identically in simulation and model checking
 
@@ -34,5 +35,11 @@ namespace Anysystem
 #check @TimerWitness.C07_D1_witness_path
 /- the contract-conforming variant of the same handler satisfies it -/
 #check @TimerWitness.C07_reference_variant_ok
+/- the simulator's `Context` calls, per call: set queues clock+delay and records the name; override cancels the old
+   event and queues a new one; `set_timer_once` on a pending name is ignored; cancel cancels and forgets -/
+#check @Sim.handleActions_set_timer
+#check @Sim.handleActions_override_timer
+#check @Sim.handleActions_once_ignored
+#check @Sim.handleActions_cancel_timer
 
 end Anysystem
